@@ -29,6 +29,12 @@ type meta struct {
 
 	creation int64 // used for the meta process Uptime method only
 	state    int32
+
+	// stopReason is set right before the main loop (Start) switches the state
+	// to terminated. If a message handler was running at that moment, the
+	// handling goroutine finalizes the termination (see handle), so Terminate
+	// callback is never invoked concurrently with the other callbacks.
+	stopReason error
 }
 
 func (m *meta) ID() gen.Alias {
@@ -102,7 +108,13 @@ func (m *meta) start() {
 				pc, fn, line, _ := runtime.Caller(2)
 				m.log.Panic("meta process %s terminated - %#v at %s[%s:%d]", m.id,
 					rcv, runtime.FuncForPC(pc).Name(), fn, line)
+				m.stopReason = gen.TerminateReasonPanic
 				old := atomic.SwapInt32(&m.state, int32(gen.MetaStateTerminated))
+				if old == int32(gen.MetaStateRunning) {
+					// message handler is running. termination will be
+					// finalized by its goroutine (see handle)
+					return
+				}
 				if old != int32(gen.MetaStateTerminated) {
 					m.p.node.aliases.Delete(m.id)
 					atomic.StoreInt32(&m.state, int32(gen.MetaStateTerminated))
@@ -125,7 +137,16 @@ func (m *meta) start() {
 	reason := m.behavior.Start()
 	// meta process terminated
 	lib.VerifPoint("meta.start.term", m.id)
+	if reason == nil {
+		reason = gen.TerminateReasonNormal
+	}
+	m.stopReason = reason
 	old := atomic.SwapInt32(&m.state, int32(gen.MetaStateTerminated))
+	if old == int32(gen.MetaStateRunning) {
+		// message handler is running. termination will be
+		// finalized by its goroutine (see handle)
+		return
+	}
 	if old != int32(gen.MetaStateTerminated) {
 		m.p.node.aliases.Delete(m.id)
 		if reason == nil {
@@ -159,7 +180,7 @@ func (m *meta) handle() {
 						rcv, runtime.FuncForPC(pc).Name(), fn, line)
 
 					old := atomic.SwapInt32(&m.state, int32(gen.MetaStateTerminated))
-					if old != int32(gen.MetaStateTerminated) {
+					if old != int32(gen.MetaStateTerminated) || m.stopReason != nil {
 						m.p.node.aliases.Delete(m.id)
 						reason = gen.TerminateReasonPanic
 						m.p.node.RouteTerminateAlias(m.id, reason)
@@ -250,7 +271,7 @@ func (m *meta) handle() {
 			// terminated
 			lib.VerifPoint("meta.term", m.id)
 			old := atomic.SwapInt32(&m.state, int32(gen.MetaStateTerminated))
-			if old != int32(gen.MetaStateTerminated) {
+			if old != int32(gen.MetaStateTerminated) || m.stopReason != nil {
 				m.p.node.aliases.Delete(m.id)
 				m.p.node.RouteTerminateAlias(m.id, reason)
 				m.behavior.Terminate(reason)
@@ -260,7 +281,14 @@ func (m *meta) handle() {
 
 		lib.VerifPoint("meta.tosleep", m.id)
 		if atomic.CompareAndSwapInt32(&m.state, int32(gen.MetaStateRunning), int32(gen.MetaStateSleep)) == false {
-			// terminated. seems the main loop is stopped. do nothing.
+			// terminated. seems the main loop is stopped.
+			if reason = m.stopReason; reason != nil {
+				// it stopped while this goroutine was handling a message,
+				// so the termination must be finalized here
+				m.p.node.aliases.Delete(m.id)
+				m.p.node.RouteTerminateAlias(m.id, reason)
+				m.behavior.Terminate(reason)
+			}
 			return
 		}
 
